@@ -170,7 +170,7 @@ def _minmax(g, prefer):
     op1, op2 = prefer if g.chance(8) else (g.pick(["Min", "Max"]), g.pick(["Min", "Max"]))
     x = _x(g, [F32, F32, F32, F32, F64, F64, I64, I64, I32, I32, F16, I8, U8])
     # "clean" profile: all operands true constants of size 1 (what the Clip fusions require); otherwise everything is free
-    clean = g.chance(5)
+    clean = g.chance(6)
     state = {"tags": set(), "shapes": set(), "hows": set(), "rng": rng, "clean": clean, "vals": [], "cap": None}
     n1 = g.pick([2, 2, 2, 3] if clean else [2, 2, 1, 3, 2])
     n2 = g.pick([2, 2, 2, 3] if clean else [2, 2, 1, 3, 2])
